@@ -208,6 +208,7 @@ Inductive loc :=
 | LF (v : nat)          (* the variable's applied force f *)
 | LBiasE (b : nat)      (* bias b: bias_energy *)
 | LBiasF (b i : nat)    (* bias b: colvar_forces[i] *)
+| LBiasState (b : nat)  (* bias b: its private accumulated data (hills, kernels, samples, moving centres) *)
 | LEnergy.              (* colvarmodule::total_bias_energy *)
 
 Definition loc_eqb (a b : loc) : bool :=
@@ -219,6 +220,7 @@ Definition loc_eqb (a b : loc) : bool :=
   | LF v, LF v' => Nat.eqb v v'
   | LBiasE b, LBiasE b' => Nat.eqb b b'
   | LBiasF b i, LBiasF b' i' => Nat.eqb b b' && Nat.eqb i i'
+  | LBiasState b, LBiasState b' => Nat.eqb b b'
   | LEnergy, LEnergy => true
   | _, _ => false
   end.
@@ -257,6 +259,34 @@ Definition bias_item (p : nat * bias) : sitem :=
                      | LBiasF _ i => - (b_k bs * bias_x bs s i)
                      | _ => 0
                      end).
+
+(* a bias with accumulated private data (metadynamics, OPES, ABF, ... : update() deposits into / reads from its own hills,
+   kernels or samples): it reads its variables' values and ITS OWN state, writes its own energy, forces and state.  The energy
+   and forces come from the state accumulated so far, the deposit from the current values (integer stand-in for the kernel). *)
+Definition acc_bias_item (p : nat * bias) : sitem :=
+  let b := fst p in let bs := snd p in
+  let idx := seq 0 (length (b_vars bs)) in
+  mkItem (LBiasState b :: map LX (b_vars bs)) (LBiasE b :: LBiasState b :: map (LBiasF b) idx)
+         (fun s l => match l with
+                     | LBiasE _ => b_k bs * s (LBiasState b)
+                     | LBiasState _ => s (LBiasState b) + zsum (map (fun i => bias_x bs s i) idx)
+                     | LBiasF _ i => - (b_k bs * s (LBiasState b))
+                     | _ => 0
+                     end).
+(* a stateful bias that ALSO adds the energies of the other biases to what it deposits (what the seeded change C12_5 made of
+   OPES, "EXTRA_BIAS"): it reads locations that other items of the same loop write *)
+Definition extra_bias_item (others : list nat) (p : nat * bias) : sitem :=
+  let b := fst p in let bs := snd p in
+  let idx := seq 0 (length (b_vars bs)) in
+  mkItem (LBiasState b :: map LX (b_vars bs) ++ map LBiasE others) (LBiasE b :: LBiasState b :: map (LBiasF b) idx)
+         (fun s l => match l with
+                     | LBiasE _ => b_k bs * s (LBiasState b)
+                     | LBiasState _ => s (LBiasState b) + zsum (map (fun i => bias_x bs s i) idx) + zsum (map (fun o => s (LBiasE o)) others)
+                     | LBiasF _ i => - (b_k bs * s (LBiasState b))
+                     | _ => 0
+                     end).
+Definition any_bias_item (stateful : nat -> bool) (p : nat * bias) : sitem :=
+  if stateful (fst p) then acc_bias_item p else bias_item p.
 
 (* the scripted-force task: calc_scripted_forces -> script -> colvar::add_bias_force (fb += f) *)
 Definition script_force (sc : list (nat * Z)) (v : nat) : Z :=
